@@ -1,4 +1,4 @@
-import TextxVerif.Proofs.RepoEntry
+import TextxVerif.Proofs.RepoTargets
 /-!
 # C17 — multi-file models load each file once and share element identity
 
@@ -164,6 +164,152 @@ theorem C17_preload (S : Spec) (hg : S.glob = true) (fuel : Nat) (calls : List (
         (∀ y ∈ new, y ∈ st'.all.keys) ∧ (∀ y ∈ new, ∃ c, some c ∈ calls ∧ Reach S st0.all.keys c y) :=
   preload_spec S hg fuel calls st0 st' hwf h
 
+/-! ## any cached file; histories of loads -/
+
+/-- **Any cached file.**  With a global repository, loading *any* file that is in it — cached as a main
+model or through the imports of an earlier load — returns the cached model, which is the model of that
+file, opens nothing and changes nothing (`C17_cached_reload` is the case of the main file of the load
+before). -/
+theorem C17_cached_any (S : Spec) (fuel : Nat) (st : St) (g : File) (hwf : WF st) (hg : S.glob = true)
+    (hk : g ∈ st.all.keys) (hm : S.modFault g = false) :
+    loadMain S fuel st g = (st, .ok, (st.all.get? g).getD 0) ∧ (g, (st.all.get? g).getD 0) ∈ st.all ∧
+      st.fileOf ((st.all.get? g).getD 0) = g := by
+  have hin := Dict.get?_of_has _ _ ((Dict.has_iff _ _).2 hk)
+  exact ⟨loadMain_cached S fuel st g hg hk hm, hin, hwf.file _ hin⟩
+
+/-- **Every file of a successful load is cached.**  After a successful load on a global repository, every
+file of its import closure and every file cached before is returned from the cache by any later load
+(`S'`: the files as they are then), as the single instance of that file; a file cached before keeps its
+instance. -/
+theorem C17_cached_closure (S S' : Spec) (fuel fuel' : Nat) (st0 : St) (f : File) (st' : St) (j : Inst)
+    (hwf : WF st0) (hg : S.glob = true) (hg' : S'.glob = true) (h : loadMain S fuel st0 f = (st', .ok, j))
+    (y : File) (hy : Reach S st0.all.keys f y ∨ y ∈ st0.all.keys) (hm : S'.modFault y = false) :
+    ∃ i, loadMain S' fuel' st' y = (st', .ok, i) ∧ (y, i) ∈ st'.all ∧ st'.fileOf i = y ∧
+      ∀ x, (y, x) ∈ st0.all → x = i := by
+  have hb := base_of_glob S st0 hg
+  have hok := loadMain_ok S fuel st0 f (hwf.base S) h
+  obtain ⟨new, _, _, _, _, h5, h6⟩ := loadMain_reads S fuel st0 f (hwf.base S) h
+  obtain ⟨N, hN, _⟩ := hok.invW.split
+  rw [hb] at h5 hN
+  have hyk : y ∈ st'.all.keys := by
+    rcases hy with hy | hy
+    · exact h6 rfl hg y (h5 rfl y hy)
+    · rw [hN]
+      simp only [Dict.keys, List.map_append, List.mem_append]
+      exact Or.inl hy
+  obtain ⟨h1, h2, h3⟩ := C17_cached_any S' fuel' st' y hok.wf hg' hyk hm
+  refine ⟨_, h1, h2, h3, ?_⟩
+  intro x hx
+  have hx' : (y, x) ∈ st'.all := by rw [hN]; exact List.mem_append_left _ hx
+  have e1 := Dict.get?_of_mem _ _ _ hok.wf.nodup hx'
+  rw [e1]; rfl
+
+/-- **One load of a history keeps the state well formed**, whatever the entry point (`Op`: file, model
+without file name under the name textX invents, explicit pre-load) and whatever the outcome — success,
+or failure in any phase. -/
+theorem C17_step_wf (S : Spec) (fuel : Nat) (st : St) (op : Op) (hwf : WF (base S st))
+    (hnf : (op.run S fuel st).2.1 ≠ .fuel) (T : Spec) (hT : T.glob = S.glob) :
+    WF (base T (op.run S fuel st).1) :=
+  Op.run_wf S fuel st op hwf hnf T hT
+
+/-- **Every reachable state is well formed.**  After any history of loads from the empty state — any
+files, faults and entry points per load, successful and failing loads mixed, on a metamodel with
+(`g = true`) or without a global repository — the dict the next load starts from (`base T st`: the global
+repository, or a fresh dict) is well formed: the hypothesis `WF` of the C17 / C18 theorems holds in every
+state that can occur (apply them at `base T st`, see `C17_load_base`). -/
+theorem C17_history_wf (g : Bool) (ops : List (Spec × Nat × Op)) (h : HistOK g ops St.init)
+    (T : Spec) (hT : T.glob = g) : WF (base T (runOps ops St.init)) :=
+  runOps_wf g ops St.init (fun T _ => WF.init.base T) h T hT
+
+/-- with a global repository the state itself is well formed -/
+theorem C17_history_wf_glob (ops : List (Spec × Nat × Op)) (h : HistOK true ops St.init) :
+    WF (runOps ops St.init) := by
+  let T : Spec := { calls := fun _ => [], defs := fun _ => [], refs := fun _ => [], syntaxErr := fun _ => false,
+                    objFault := fun _ => false, modFault := fun _ => false, builtins := [], glob := true }
+  have := C17_history_wf true ops h T rfl
+  rw [base_of_glob T _ rfl] at this
+  exact this
+
+/-- a load only looks at the dict it starts from: the theorems stated for a well-formed `st0` apply to
+`base S st0` -/
+theorem C17_load_base (S : Spec) (fuel : Nat) (st : St) (f : File) :
+    loadMain S fuel (base S st) f = loadMain S fuel st f ∧ loadStr S fuel (base S st) f = loadStr S fuel st f :=
+  ⟨loadMain_base S fuel st f, loadStr_base S fuel st f⟩
+
+/-- **No load of a history runs out of fuel** when every load gets at least as much fuel as a set of
+files that contains its main models and is closed under imports has elements (the harness gives
+`#files + 1`). -/
+theorem C17_history_terminates (g : Bool) (ops : List (Spec × Nat × Op)) (h : HistFueled g ops St.init) :
+    HistOK g ops St.init :=
+  histFueled_ok g ops St.init (fun T _ => WF.init.base T) h
+
+/-- both together: with enough fuel per load, every reachable state is well formed -/
+theorem C17_history_wf_fueled (g : Bool) (ops : List (Spec × Nat × Op)) (h : HistFueled g ops St.init)
+    (T : Spec) (hT : T.glob = g) : WF (base T (runOps ops St.init)) :=
+  C17_history_wf g ops (C17_history_terminates g ops h) T hT
+
+/-- **The C17 statements in every reachable state**: after any history, the next `model_from_file`
+opens every file at most once and no cached one; when it succeeds it opens exactly the non-cached
+closure, leaves a well-formed state in which every `local_models` entry is the `all_models` entry of
+that file, and every new model's references are resolved in the lookup order. -/
+theorem C17_history_next (g : Bool) (ops : List (Spec × Nat × Op)) (h : HistOK g ops St.init)
+    (S : Spec) (hS : S.glob = g) (fuel : Nat) (f : File) (st0 : St) (hst : st0 = runOps ops St.init) :
+    (∃ new, (loadMain S fuel st0 f).1.reads = new ++ st0.reads ∧ new.Nodup ∧
+      (∀ y ∈ new, y ∉ (base S st0).all.keys) ∧ (∀ y ∈ new, Reach S (base S st0).all.keys f y)) ∧
+    (∀ st' j, loadMain S fuel st0 f = (st', .ok, j) →
+      (∃ new, st'.reads = new ++ st0.reads ∧ new.Nodup ∧ ∀ y, y ∈ new ↔ Reach S (base S st0).all.keys f y) ∧
+      WF st' ∧ (∀ m ∈ included st' j, ∀ e ∈ st'.loc m, st'.all.get? e.1 = some e.2 ∧ st'.fileOf e.2 = e.1) ∧
+      (∀ m, st0.next ≤ m → m ∈ included st' j →
+        (st'.tgt m).map some = (S.refs (st'.fileOf m)).map (lookupSpec S st' m))) := by
+  have hwf : WF (base S st0) := by rw [hst]; exact C17_history_wf g ops h S hS
+  refine ⟨?_, ?_⟩
+  · obtain ⟨new, h1, h2, h3, h4, _, _⟩ := loadMain_reads S fuel st0 f hwf
+      (show loadMain S fuel st0 f = ((loadMain S fuel st0 f).1, (loadMain S fuel st0 f).2.1, (loadMain S fuel st0 f).2.2) from rfl)
+    exact ⟨new, h1, h2, h3, h4⟩
+  · intro st' j hl
+    obtain ⟨new, h1, h2, _, h4, h5, _⟩ := loadMain_reads S fuel st0 f hwf hl
+    have hok := (loadMain_ok S fuel st0 f hwf hl).toLoad
+    obtain ⟨i1, _, i3, _, _⟩ := hok.identity
+    refine ⟨⟨new, h1, h2, fun y => ⟨h4 y, h5 rfl y⟩⟩, i1, i3, ?_⟩
+    intro m hge hm
+    exact hok.lookupOrder m (by rw [base_next]; exact hge) hm
+      (loadMain_loc S fuel st0 f hwf hl m hge (hok.lt m hm))
+
+/-- **A load never touches the recorded reference targets of a model that existed before**, whatever
+its outcome (`C17_identity` and `C17_lookup_order` describe the targets of the models a load constructs;
+this says they stay what they are). -/
+theorem C17_targets_untouched (S : Spec) (fuel : Nat) (st0 : St) (f : File) (hwf : WF st0) (i : Inst)
+    (hi : i < st0.next) : (loadMain S fuel st0 f).1.tgt i = st0.tgt i :=
+  loadMain_tgt_old S fuel st0 f (hwf.base S) i hi
+
+/-- **Single instance in every reachable state.**  After any history of loads from the empty state (any
+entry points, successful and failing loads mixed), in the dict the next load starts from: every file has
+one entry, which is a model of that file; and every element target recorded in any model of the dict —
+also the models cached by loads long ago — is an element of that model itself or of the model that is
+*the* entry of its file, and that element exists there.  So no reference of a cached model ever points
+to a second instance of a file or to a model removed by a failed load. -/
+theorem C17_history_identity (g : Bool) (ops : List (Spec × Nat × Op)) (h : HistOK g ops St.init)
+    (T : Spec) (hT : T.glob = g) (st : St) (hst : st = base T (runOps ops St.init)) :
+    ∀ f i, (f, i) ∈ st.all → st.fileOf i = f ∧ (∀ i', (f, i') ∈ st.all → i' = i) ∧
+      ∀ x n, Target.elem x n ∈ st.tgt i → (x = i ∨ (st.fileOf x, x) ∈ st.all) ∧ n ∈ st.defsOf x := by
+  have hwf : WF st := by rw [hst]; exact C17_history_wf g ops h T hT
+  have hT' : TgtOK st := by
+    rw [hst]
+    exact runOps_tgtOK g ops St.init (fun T _ => ⟨WF.init.base T, by
+      intro e he
+      have : (base T St.init).all = [] := by unfold base; split <;> rfl
+      rw [this] at he; cases he⟩) h T hT
+  intro f i hfi
+  refine ⟨hwf.file _ hfi, ?_, ?_⟩
+  · intro i' hi'
+    have h1 := Dict.get?_of_mem _ _ _ hwf.nodup hfi
+    have h2 := Dict.get?_of_mem _ _ _ hwf.nodup hi'
+    rw [h1] at h2
+    exact (Option.some.inj h2).symm
+  · intro x n ht
+    obtain ⟨h1, h2⟩ := hT' (f, i) hfi x n ht
+    exact ⟨h1, by simpa using h2⟩
+
 /-! ## non-vacuity: a cycle with a self-import, a diamond and shadowed names -/
 
 /-- file 0 imports 1 and 2; 1 imports 2 and 0 (cycle); 2 imports itself.
@@ -211,6 +357,29 @@ example : (preload (exS true) 3 St.init [some 2, some 0, none]).2 = .fail .io :=
 example : (preload (exS true) 3 St.init [some 2, some 0, some 1]).2 = .ok := by decide
 example : (preload (exS true) 3 St.init [some 2, some 0, some 1]).1.reads = [1, 0, 2] := by decide
 example : (preload (exS true) 3 St.init [some 2, some 0, some 1]).1.all = [(2, 0), (0, 1), (1, 2)] := by decide
+/-- a history through all entry points: a file, a model without file name (invented name 3), a pre-load,
+a cached reload and a load that fails (file 4 does not parse) -/
+def exH : List (Spec × Nat × Op) :=
+  [(exS true, 5, .file 1), (exT true, 5, .str 3), (exS true, 5, .preload [some 2, some 0]),
+   ({ exS true with syntaxErr := fun f => f == 4 }, 5, .file 4), (exS true, 5, .file 0)]
+
+example : HistOK true exH St.init := ⟨rfl, by decide, rfl, by decide, rfl, by decide, rfl, by decide, rfl, by decide, trivial⟩
+/-- the fuel hypothesis of `C17_history_terminates` holds for it: files 0..4 are closed under imports -/
+example : HistFueled true exH St.init :=
+  ⟨rfl, ⟨[0, 1, 2, 3, 4], closedB_spec (by decide), by decide, by decide⟩,
+   rfl, ⟨[0, 1, 2, 3, 4], closedB_spec (by decide), by decide, by decide⟩,
+   rfl, ⟨[0, 1, 2, 3, 4], closedB_spec (by decide), by decide, by decide⟩,
+   rfl, ⟨[0, 1, 2, 3, 4], closedB_spec (by decide), by decide, by decide⟩,
+   rfl, ⟨[0, 1, 2, 3, 4], closedB_spec (by decide), by decide, by decide⟩, trivial⟩
+example : (runOps exH St.init).all = [(1, 0), (2, 1), (0, 2), (3, 3)] := by decide
+example : (runOps exH St.init).reads = [4, 3, 0, 2, 1] := by decide
+-- any cached file is returned as it is: file 2 was only ever imported
+example : loadMain (exS true) 0 (runOps exH St.init) 2 = (runOps exH St.init, .ok, 1) :=
+  (C17_cached_any (exS true) 0 _ 2 (C17_history_wf_glob exH
+    ⟨rfl, by decide, rfl, by decide, rfl, by decide, rfl, by decide, rfl, by decide, trivial⟩) rfl (by decide) rfl).1
+-- the targets recorded for the model without file name (instance 3) and for file 0 (instance 2) in that state
+example : (runOps exH St.init).tgt 3 = [.elem 2 5, .elem 0 6, .elem 3 7] := by decide
+example : (runOps exH St.init).tgt 2 = [.elem 2 5, .elem 0 7, .elem 1 8, .builtin 0 9] := by decide
 example : WF St.init := ⟨by simp [St.init, Dict.keys], by simp [St.init], by simp [St.init], by simp [St.init],
   by simp [St.init]⟩
 
